@@ -1,79 +1,163 @@
-import StraxModel.Model.SelectionMulti
-import StraxModel.Lemmas.Selection
+import StraxModel.Lemmas.SelectionMulti
+import StraxModel.Props.C08
 /-
-  Property C10, part 2: several same-kind targets requested together (needs Model/Align.lean, the
-  `Plugin.iter` model of property C08).  Only property theorems and examples.
+  Property C10, part 2: several same-kind targets requested together (`getArrayMulti`,
+  Model/SelectionMulti.lean: one loader per target with the same range, aligned by `Plugin.iter` of the
+  temporary merge plugin = `Strax.Align.iterModel`, property C08).  Only property theorems and examples.
 -/
 namespace Strax.C10
-open Strax Strax.Selection
+open Strax Strax.Selection Strax.Align
 
 /-
-  Full statement (DESIGN §6 `multi_same_kind`): for law-abiding stored layouts `s₁ … sₙ` of the same rows
-  (same kind) and a proper range `r`,
-      getArrayMulti fields [(d₁, s₁), …, (dₙ, sₙ)] {timeRange := r} sel = getArray fields s₁ {timeRange := r} sel.
-  Proved here: the reduction of the multi-target request to the single-target one GIVEN the row accounting of
-  `Plugin.iter` — the merged calls hand over the rows loaded for the first target, in order, except for a
-  tail that starts at/after `t1` (the tolerant NEVER policy of the temporary merge plugin may leave such a
-  tail in the input buffer when the other target's last chunk ends earlier because its right-edge split was
-  swallowed).  Missing: deriving `hrows` / `htail` from C08's `rows_once_in_order` for `Align.iterModel` and
-  from the end bound of `loadRange` (every loaded stream ends at or after `min t1 E`).  The correspondence
-  check compares `getArrayMulti` with the real `get_array((src, dep))` on differently chunked directories.
+  Full statement (`multi_same_kind`): for law-abiding stored layouts `s₀ … sₙ` of the same rows (one data kind)
+  and a proper range `r`,
+      getArrayMulti fields [(d₀, s₀), …, (dₙ, sₙ)] {timeRange := r} sel = getArray fields s₀ {timeRange := r} sel.
+
+  Proved below (`multi_same_kind_partial`): the same conclusion when
+    * the loaders and `Plugin.iter` succeed (`hloads`, `hiter`: partial-correctness form — C08 proves totality of
+      `Plugin.iter` only for dependencies of pairwise different kinds), and
+    * the LOADED streams are aligned — decidable predicates of C08 evaluated on what the loaders returned:
+      `StartAt T0` (all start at the same time: the early left split lands on the same latest admissible time),
+      `endAtB T1` (all end at the same time), `validInputsB` (law-abiding streams of one run) and `kindAlignedB`
+      (interval-equal rows).
+  The row accounting that the previous version took as a hypothesis (`hrows` / `htail`) is now derived from
+  C08 (`rows_once_in_order`, `calls_aligned`, `calls_row_aligned`, `last_call_ends_at_run_end`).
+
+  Still excluded (hence `_partial`): loaded streams whose RIGHT edges differ — the strict right-edge split is
+  swallowed (`CannotSplit`) in one layout but not in the other, so one stream carries extra rows starting at/after
+  `t1`; `Plugin.iter` (policy NEVER) leaves them in the buffer and the result is still right, but C08's accounting
+  is stated for interval-equal streams only.  That region is exercised by the correspondence check
+  (`c10.multi` on the mixed directories giant/tiny, tiny/giant, orig/giant vs the real `get_array((src, dep))`).
 -/
-theorem multi_same_kind_partial (fields : List String) (d0 : Align.Dep) (s0 : List Chunk)
-    (rest : List (Align.Dep × List Chunk)) (r : Range) (sel : Sel) (lists : List (List Chunk))
-    (calls : List Align.Call) (cs : List Chunk) (tail : List Row)
-    (hs : LawAbiding s0) (hne : s0 ≠ []) (hm : RealMode sel.mode)
-    (hload0 : loadRange s0 r = .ok cs) (hcs : cs ≠ [])
-    (hloads : mapE (fun (p : Align.Dep × List Chunk) => loader p.2 (some r)) ((d0, s0) :: rest) = .ok lists)
-    (hiter : Align.iterModel (((d0, s0) :: rest).map (·.1)) lists false = .ok calls) (hcalls : calls ≠ [])
-    (hrows : (calls.map mergedRows).flatten ++ tail = cs.flatMap (·.rows))
-    (htail : ∀ x ∈ tail, r.2 ≤ x.time ∧ x.time < x.endt) :
+theorem multi_same_kind_partial (fields : List String) (d0 : Dep) (s0 : List Chunk)
+    (rest : List (Dep × List Chunk)) (r : Range) (sel : Sel) (lists : List (List Chunk))
+    (calls : List Call) (rid : String) (T0 T1 : Int)
+    (hs : Selection.LawAbiding s0) (hne : s0 ≠ []) (hm : RealMode sel.mode)
+    (hsame : ∀ p ∈ rest, p.1.kind = d0.kind)
+    (hloads : Selection.mapE (fun (p : Dep × List Chunk) => loader p.2 (some r)) ((d0, s0) :: rest) = .ok lists)
+    (hiter : iterModel (((d0, s0) :: rest).map (·.1)) lists false = .ok calls)
+    (hv : validInputsB rid lists = true) (hT : StartAt T0 lists) (he : endAtB T1 lists = true)
+    (hk : kindAlignedB (((d0, s0) :: rest).map (·.1)) lists = true) :
     getArrayMulti fields ((d0, s0) :: rest) { timeRange := some r } sel
       = getArray fields s0 { timeRange := some r } sel := by
-  obtain ⟨cs', hload, hsel, hnil⟩ := loadRange_spec s0 r (chunks_of_lawAbiding hs)
-  rw [hload0] at hload
-  injection hload with hload
-  subst hload
-  rw [getArray_range hs hne hm (r := r) rfl]
-  have hnot : ¬ (s0.all (fun c => pruned c r) = true) := by
-    intro hall
-    exact hcs (hnil.2 (by simpa [List.all_eq_true] using hall))
-  simp only [hnot, Bool.false_eq_true, if_false]
-  unfold getArrayMulti
-  have habs : toAbsolute s0 { timeRange := some r } = .ok (some r) := rfl
-  simp only [habs, hloads, hiter]
-  cases calls with
-  | nil => exact absurd rfl hcalls
-  | cons c calls =>
-    rw [List.map_cons, collect_eq, ← List.map_cons]
-    rcases applySelection_shape fields sel (some r) with herr | ⟨cols, hok⟩
-    · rw [herr, herr]
-    · rw [hok, hok, keepFn_eq_select, keepFn_eq_select, ← hsel sel.mode sel.predFn hm]
-      congr 2
-      have h1 : cs.flatMap (fun c => select sel.mode r sel.predFn c.rows)
-          = select sel.mode r sel.predFn (cs.flatMap (·.rows)) := by
-        have := filter_flatten_rows (fun x => inRange sel.mode r x && sel.predFn x) cs
-        simp only [select]
-        rw [← this]
-        simp [List.flatMap]
-      rw [h1, ← hrows, select_append,
-        select_nil_of (fun x hx => inRange_right_false hm (htail x hx).2 (htail x hx).1)]
-      simp
+  -- the first loaded stream
+  obtain ⟨cs0, lists', hl0, -, hlists⟩ := mapE_cons_ok hloads
+  have hlen : lists.length = (((d0, s0) :: rest).map (·.1)).length := by
+    rw [mapE_length hloads]; simp
+  have hload0 : loadRange s0 r = .ok cs0 := by
+    unfold loader at hl0
+    have : s0.isEmpty = false := by cases s0 <;> simp_all
+    simpa [this] using hl0
+  have hget0 : lists[0]? = some cs0 := by rw [hlists]; rfl
+  have hcs0 : cs0 ≠ [] := by
+    intro h0
+    unfold StartAt startAtB at hT
+    rw [hlists, h0] at hT
+    simp at hT
+  -- the run behind `iterModel`
+  unfold iterModel at hiter
+  split at hiter
+  · cases hiter
+  · rename_i res hres
+    injection hiter with hiter
+    subst hiter
+    have hres' : iterRun (((d0, s0) :: rest).map (·.1)) lists false = .ok res := hres
+    have hcalls := (C08.calls_adjacent hlen hT hres').1
+    obtain ⟨left, hleft, hrows⟩ := C08.rows_once_in_order hlen hres' 0 cs0 hget0
+    have hleft0 : left = [] :=
+      (C08.last_call_ends_at_run_end hv hT he hres').2 left (List.mem_of_getElem? hleft)
+    have hmerged : ∀ c ∈ res.calls, mergedRows c = c.rowsOf 0 := by
+      intro c hc
+      rw [mergedRows_eq_align]
+      have hal := C08.calls_aligned hlen hT hres' c hc
+      apply mergedRowsOf_eq (n := rest.length) (by rw [hal.1]; simp)
+      have hlast : ((d0 :: rest.map (·.1)))[rest.length]? = some ((d0 :: rest.map (·.1))[rest.length]'(by simp)) :=
+        List.getElem?_eq_getElem (by simp)
+      apply C08.calls_row_aligned hlen hT hk hres' c hc 0 rest.length d0 _ rfl hlast
+      have hmem : (d0 :: rest.map (·.1))[rest.length]'(by simp) ∈ d0 :: rest.map (·.1) := List.getElem_mem _
+      rcases List.mem_cons.mp hmem with e1 | e1
+      · rw [e1]
+      · obtain ⟨p, hp, hpe⟩ := List.mem_map.mp e1
+        rw [← hpe]
+        exact (hsame p hp).symm
+    apply multi_of_accounting fields d0 s0 rest r sel lists res.calls cs0 [] hs hne hm hload0 hcs0 hloads
+      (by unfold iterModel; rw [hres]) hcalls
+    · have hrows' : res.calls.flatMap (fun c => c.rowsOf 0) ++ left = cs0.flatMap (·.rows) := hrows
+      rw [List.append_nil, ← hrows', hleft0, List.append_nil, List.flatMap_def]
+      congr 1
+      exact List.map_congr_left hmerged
+    · intro x hx; cases hx
 
--- Non-vacuity of the hypotheses on a concrete instance (one stored target, range (17, 21), early left split at
--- 16, right split swallowed).  With two or more targets `Align.iterModel` goes through `Chunk.merge`, which the
--- kernel cannot evaluate by `decide`; those instances are exercised by the correspondence check
--- (`c10.multi` ops against the real `get_array((src, dep))`).
-example :
-    let s0 : List Chunk := [⟨"src", "things", some "0", 8, 26,
-      [⟨10, 14, 0⟩, ⟨12, 16, 1⟩, ⟨16, 18, 2⟩, ⟨20, 22, 3⟩, ⟨20, 24, 4⟩], none, [⟨"0", 8, 26⟩], 1000⟩]
-    let cs : List Chunk := [⟨"src", "things", some "0", 16, 26,
-      [⟨16, 18, 2⟩, ⟨20, 22, 3⟩, ⟨20, 24, 4⟩], none, [⟨"0", 16, 26⟩], 1000⟩]
-    let calls : List Align.Call := [⟨16, 26, [[⟨16, 18, 2⟩, ⟨20, 22, 3⟩, ⟨20, 24, 4⟩]], [(16, 26)]⟩]
-    LawAbiding s0 ∧ RealMode Mode.touching ∧ loadRange s0 (17, 21) = .ok cs ∧
-    mapE (fun (p : Align.Dep × List Chunk) => loader p.2 (some (17, 21))) [(⟨"src", "things"⟩, s0)] = .ok [cs] ∧
-    Align.iterModel [⟨"src", "things"⟩] [cs] false = .ok calls ∧
-    (calls.map mergedRows).flatten ++ [] = cs.flatMap (·.rows) := by
+/-! ### non-vacuity with TWO targets stored in different layouts
+
+`src` is stored as one chunk `[8, 26)`, `dep` (same rows) as `[8, 16) [16, 26)`; range `(17, 21)`.  Both loaders
+return the single chunk `[16, 26)` with rows 2, 3, 4 (early left split at 16; right split swallowed because rows 3
+and 4 straddle 21).  `Chunk.merge` sorts run spans with `List.mergeSort`, whose well-founded recursion the kernel
+does not unfold, so `iterModel` is evaluated stage by stage (`decide +kernel` for every stage except the merge,
+which is rewritten with `mergeSort_pair`). -/
+
+private def dS : Dep := ⟨"src", "things"⟩
+private def dD : Dep := ⟨"dep", "things"⟩
+private def rows5 : List Row := [⟨10, 14, 0⟩, ⟨12, 16, 1⟩, ⟨16, 18, 2⟩, ⟨20, 22, 3⟩, ⟨20, 24, 4⟩]
+private def rows3 : List Row := [⟨16, 18, 2⟩, ⟨20, 22, 3⟩, ⟨20, 24, 4⟩]
+private def sS : List Chunk := [⟨"src", "things", some "0", 8, 26, rows5, none, [⟨"0", 8, 26⟩], 1000⟩]
+private def sD : List Chunk := [
+  ⟨"dep", "things", some "0", 8, 16, [⟨10, 14, 0⟩, ⟨12, 16, 1⟩], none, [⟨"0", 8, 16⟩], 1000⟩,
+  ⟨"dep", "things", some "0", 16, 26, rows3, none, [⟨"0", 16, 26⟩], 1000⟩]
+private def lS : Chunk := ⟨"src", "things", some "0", 16, 26, rows3, none, [⟨"0", 16, 26⟩], 1000⟩
+private def lD : Chunk := ⟨"dep", "things", some "0", 16, 26, rows3, none, [⟨"0", 16, 26⟩], 1000⟩
+private def bS : Chunk := ⟨"src", "things", some "0", 26, 26, [], none, [⟨"0", 26, 26⟩], 1000⟩
+private def bD : Chunk := ⟨"dep", "things", some "0", 26, 26, [], none, [⟨"0", 26, 26⟩], 1000⟩
+private def z0 : Zip DepState := ⟨[], ⟨dS, [], lS⟩, [⟨dD, [], lD⟩]⟩
+private def zi : Zip (Chunk × DepState) := ⟨[], (lS, ⟨dS, [], bS⟩), [(lD, ⟨dD, [], bD⟩)]⟩
+private def mM : Chunk := ⟨"<UNKNOWN>", "things", some "0", 16, 26, rows3, none, [⟨"0", 16, 26⟩], 1000⟩
+private def call0 : Call := ⟨16, 26, [rows3, rows3], [(16, 26), (16, 26)]⟩
+
+/-- `Plugin.iter` on the two loaded streams: one call `[16, 26)` with the three rows from both -/
+theorem two_target_instance_iter : iterModel [dS, dD] [[lS], [lD]] false = .ok [call0] := by
+  have hprep : z0.mapE (prepDep 26) = .ok zi := by decide +kernel
+  have hretrim : retrim maxPasses 26 zi = .ok zi := by decide +kernel
+  have hsup : mergeSuperrun [lS, lD] true = .ok [⟨"0", 16, 26⟩] := by
+    simp [mergeSuperrun, mergableCheck, collectRuns, addRun, lS, lD, mergeSort_pair]
+    rfl
+  have hsub : mergeSubruns [lS, lD] true = .ok none := by decide +kernel
+  have hmc : mergeChunks [lS, lD] "<UNKNOWN>" = .ok mM := by
+    unfold mergeChunks
+    simp only [bind, Except.bind, throw, throwThe, MonadExceptOf.throw, hsub, hsup]
+    decide +kernel
+  have hmerge : mergeByKind zi.toList = .ok [mM] := by
+    have e1 : kindsOf [] (zi.toList.map (·.2.dep.kind)) = ["things"] := by decide +kernel
+    have e2 : (zi.toList.filter (fun p => p.2.dep.kind == "things")).map (·.1) = [lS, lD] := by decide +kernel
+    unfold mergeByKind
+    rw [e1]
+    simp only [Align.mapE, e2, hmc]
+  have hrange : computeRange false [mM] = .ok (16, 26) := by decide +kernel
+  have hbody : iterBody maxPasses false z0 = .ok (call0, ⟨[], ⟨dS, [], bS⟩, [⟨dD, [], bD⟩]⟩) := by
+    unfold iterBody
+    have : z0.pm.buf.stop = 26 := rfl
+    simp only [this, hprep, hretrim, hmerge, hrange]
+    decide +kernel
+  have h1 : Align.mapE initFetch ([dS, dD].zip [[lS], [lD]]) = Except.ok [⟨dS, [], lS⟩, ⟨dD, [], lD⟩] := by
+    decide +kernel
+  have h2 : choosePm none [⟨dS, [], lS⟩, ⟨dD, [], lD⟩] = some z0 := by decide +kernel
+  unfold iterModel iterRun iterRunP
+  rw [h1]
+  simp only [h2]
+  unfold iterFrom
+  rw [hbody]
   decide +kernel
+
+/-- every other hypothesis of `multi_same_kind_partial` on that instance -/
+example : Selection.LawAbiding sS ∧ Selection.LawAbiding sD ∧ RealMode Mode.touching ∧ (∀ p ∈ [(dD, sD)], p.1.kind = dS.kind) ∧
+    Selection.mapE (fun (p : Dep × List Chunk) => loader p.2 (some (17, 21))) [(dS, sS), (dD, sD)] = .ok [[lS], [lD]] ∧
+    validInputsB "0" [[lS], [lD]] = true ∧ StartAt 16 [[lS], [lD]] ∧ endAtB 26 [[lS], [lD]] = true ∧
+    kindAlignedB [dS, dD] [[lS], [lD]] = true := by decide +kernel
+
+/-- … and the theorem applied to it: the two-target request equals the single-target one -/
+example : getArrayMulti ["time", "endtime", "id"] [(dS, sS), (dD, sD)] { timeRange := some (17, 21) } { mode := .touching }
+    = getArray ["time", "endtime", "id"] sS { timeRange := some (17, 21) } { mode := .touching } :=
+  multi_same_kind_partial _ dS sS [(dD, sD)] (17, 21) { mode := .touching } [[lS], [lD]] [call0] "0" 16 26
+    (by decide +kernel) (by decide) (Or.inr rfl) (by decide +kernel) (by decide +kernel) two_target_instance_iter
+    (by decide +kernel) (by decide +kernel) (by decide +kernel) (by decide +kernel)
 
 end Strax.C10
